@@ -9,6 +9,7 @@ PROPERTY = 'C13'
 RULE = ("lattice: every (nelx,nely[,nelz]) up to the bound x element-size table x dofs-per-node 1..3; per grid every "
         "element, node and every point of the 5^dim local lattice (corners, centre, edges) plus Gauss points; "
         "a case is non-trivial if the grid has >1 element or dim==3; distinct by (grid,size)")
+RULE += " Extended in seeding rounds 6-7:  scalar node arguments give scalar-shaped answers; geometry unchanged after a scaled write_to_vti."
 ASSUMPTIONS = ["reference numbering/shape functions in pmc/refs/fe.py are written from the DomainDefinition docstring",
                "'integer or array' arguments: a single node number gives one index tuple of shape (dim,), one position of "
                "shape (dim,) and a scalar node number on the way back (no extra axis of length one)",
